@@ -115,7 +115,7 @@ def run_task(task):
 
 
 def plan(tier, seed):
-    total = 4000 if tier == "quick" else 40000
+    total = 6400 if tier == "quick" else 40000
     W = 16
     return [{"n": total // W, "seed": seed * 1000 + w, "shrink": 150 if tier == "quick" else 1500}
             for w in range(W)]
